@@ -29,7 +29,12 @@ READ_ONLY = {DG: ('copy', 'invert', '__add__', '__iter__', '__len__',
 
 
 def make_analyzer(program):
-    return effects.Analyzer(program, max_depth=5)
+    # defaultdict typing: RList._index is a defaultdict(list); a subscript
+    # READ of a missing key inserts it (and RList.__contains__ is key
+    # presence)
+    ddf, ddp, idx, _ = effects.defaultdict_typing(program)
+    return effects.Analyzer(program, max_depth=5, dd_fields=ddf,
+                            dd_params=ddp, index_types=idx)
 
 
 def check_own(ctx, analyzer):
@@ -102,6 +107,17 @@ def check_dg_pure(ctx, analyzer):
             n += 1
             summ = analyzer.summary(meth)
             effs = summ.effects
+            ddreads = [u for u in summ.undecided
+                       if 'read of defaultdict' in u]
+            for note in ddreads[:2]:
+                ctx.violated(
+                    'DG-PURE', meth,
+                    f'{klass.name}.{name}: ' + note.split(': ', 1)[-1][:90],
+                    at=meth.where(),
+                    detail='a read-only method indexes the defaultdict with '
+                           'a key that need not be there: a miss INSERTS the '
+                           'key, and membership (`key in self._index`) then '
+                           'reports a value the container does not hold')
             if effs:
                 for eff in effs[:3]:
                     pname = meth.params[eff.root] if eff.root < len(
@@ -113,7 +129,7 @@ def check_dg_pure(ctx, analyzer):
                                  at=f'{eff.func.module.relpath}:'
                                     f'{eff.lineno}',
                                  detail=eff.describe())
-            else:
+            elif not ddreads:
                 ctx.holds('DG-PURE', meth, f'{klass.name}.{name}: no write '
                           f'reaches self or the other operand',
                           at=meth.where(), nontrivial=name in (
